@@ -20,6 +20,16 @@ CLAIMED = {
          "Sorts over every key type with DESC / NULLS FIRST, top-k with OFFSET, joins of every kind and key type, grouped / global / DISTINCT aggregates over 300-9,500-row tables in 1-17 batches: the limited answer equals the unlimited answer or is an explicit error. Non-trivial = a limited run really spilled and answered. Exploration.",
          "Spill is detected through the engine's own spill metrics.", "5 C08"),
 
+ "C09": ("engine-vs-engine differential over generated in-process clusters (1-8 participants, a harness FragmentTransport that calls the worker entry on peer contexts and IPC-encodes replies): forced-distributed execution vs single-node ctx.sql",
+         "1-3 multi-file Parquet tables (incl. empty tables and tables with fewer splits than nodes), self at any position, peers on the same files or a byte-identical copy; a scatter profile (Concat / TwoPhase / TopN incl. AVG over unequal shards and TopN with OFFSET) and a gather profile (full grammar + windows): same multiset, ORDER BY judged against the single node's tie groups, NotImplemented refusals accepted, approximations not. Exploration.",
+         "refsql is printed as third opinion only; a gather result equal to one node over in-memory copies of the full tables is classified as a local layout dependence, not a distribution fault.", "5 C09"),
+ "C10": ("fault enumeration at the FragmentTransport seam: the fault-free run records every remote reply, then every exchange is combined with every fault kind (alone and in generated pairs)",
+         "Per generated table set and 2-4-node cluster, one scatter and one forced-gather statement; faults: transport error, HTTP 500/503, empty body, truncation at every IPC message boundary / 1-7 bytes into the next prefix / the metadata-body seam / sampled interior offsets, sampled single-byte corruption, dropped end-of-stream marker, x-qe-rows +-1 or missing, digest altered in flight. The query must return Err or exactly the fault-free answer ('masked'); any other Ok is a violation. ~2,900 fault instances per quick run.",
+         "Faults are injected at the transport seam (status, x-qe-rows, body byte for byte); the socket-level proxy variant is not built.", "5 C10"),
+ "C45": ("proptest over gather-path statements on 2-4-table catalogs (quoted mixed-case names; tables that appear only inside subqueries): a walker over the bound plan incl. subquery expressions vs GatherPlan.tables, then execute_gathered vs ctx.sql",
+         "Joins, filters on non-projected columns, correlated / uncorrelated / SELECT-list / under-OR subqueries over tables that appear only there, CTEs, set operations, windows, SELECT * and t.*: every column the statement reads must be in the gathered table (or the gathered run still answers), and execute_gathered must return the single-node answer. Exploration.",
+         "A result equal to one node over in-memory copies of the full tables passes with a label (gathering lost nothing).", "5 C45"),
+
  "C11": ("proptest over synthetic footer-only and real Parquet inventories: validity predicate over the SplitSet + metamorphic invariances (file order, mount path) + digest sensitivity",
          "Generated tables of 1-12 files x 0-10 row groups (rows 0..1e7, bytes 0..2^40 via footer-only files written with ParquetMetaDataWriter, plus real files), 1..64 nodes: splits must cover each non-empty row group exactly once in contiguous ranges, bytes/rows must sum exactly, order must be canonical; permuting the file list or moving the files must not change sequence or digest; changing one attribute must change the digest. Exploration.",
          "Footer-only files stand in for huge row groups; the engine's footer cache is keyed by path so every case uses fresh paths.", "5 C11"),
